@@ -310,3 +310,40 @@ def known_findings(prop):
     except FileNotFoundError:
         return []
     return [f for f in allf if f.get("property") == prop]
+
+
+# ---------------------------------------------------------------------------------------------------------
+# theorem coverage: which of the explored inputs fall under the hypotheses of the registered round-trip theorems
+# ---------------------------------------------------------------------------------------------------------
+
+def theorem_coverage(cases, limit=600):
+    """cases: [(dialect, text)].  Parses each text with the parser model and evaluates the (decidable) hypotheses of C03.tstatement_any (token level: T) and
+    C03.tstatement_any_text / C01.statement_round_trip_text_any (text level: X) on every parsed statement (lean/MsqProofs/Tools/FragCov.lean, interpreted).
+    Returns an evidence block; a measurement, never a verdict."""
+    cases = list(cases)[:limit]
+    data = "".join("%s %s\n" % (d, enhex(t)) for d, t in cases)
+    try:
+        p = subprocess.run(["lake", "env", "lean", "--run", "MsqProofs/Tools/FragCov.lean"], input=data, capture_output=True, text=True, cwd=LEAN, timeout=600)
+    except Exception as e:
+        return {"error": "%s: %s" % (type(e).__name__, e)}
+    lines = [l for l in p.stdout.split("\n") if l.startswith(("OK", "REJ", "BADREQ"))]
+    if len(lines) != len(cases):
+        return {"error": "tool answered %d lines for %d texts: %s" % (len(lines), len(cases), (p.stdout + p.stderr)[-300:])}
+    tot = {"X": 0, "T": 0, "-": 0}
+    kinds = {}
+    rejected = 0
+    for a in lines:
+        if not a.startswith("OK"):
+            rejected += 1
+            continue
+        for j in a.split(" ")[1:]:
+            k, v = j.split(":")
+            tot[v] += 1
+            kk = kinds.setdefault(k, {"X": 0, "T": 0, "-": 0})
+            kk[v] += 1
+    n = sum(tot.values())
+    return {"texts": len(cases), "rejected_by_the_model": rejected, "statements": n,
+            "round_trip_is_a_theorem_at_text_level": tot["X"], "at_token_level_only": tot["T"], "outside_the_fragments": tot["-"],
+            "by_statement_class": kinds,
+            "meaning": "X: the parsed tree satisfies FragAny, printableAny, leafAnyB and the pre-pass condition, so C01.statement_round_trip_text_any applies to it; "
+                       "T: FragAny only (C01.statement_round_trip_tokens_any); -: decided by correspondence and oracle alone"}
